@@ -57,24 +57,27 @@ theorem C07_legacy_remove_raises_witness :
 def PresetSound (E : Env) (preset : Id → Fwd) : Prop := ∀ o, Sound E (preset o) o
 
 /-- **the invariant of all network-changing histories** (`NetInv`), from a scenario with any lanelets `P0` and obstacle objects
-    with sound preset ids: after ANY sequence of add / remove / assign (any mode) / file read / remove_lanelet / add_lanelet … -/
+    with sound preset ids: after ANY sequence of add / remove / assign (any mode) / file read / remove_lanelet / add_lanelet /
+    registry setters of a lanelet / read-only queries / attribute setters on obstacles OUTSIDE the scenario with lookup answers
+    (`SaneRun`; an in-place edit of the attributes of an obstacle that is in the scenario is the caller telling the obstacle
+    something the lanelets are not told — only `C07c_remove_total` speaks about such histories) … -/
 theorem C07c_inv_run {E : Env} (P0 : List Id) (preset : Id → Fwd) (hp : PresetSound E preset) (ops : List NOp) (n : NSt)
-    (h : nrun E false (NSt.init P0 preset) ops = .ok n) : NetInv E n :=
-  netInv_run ops _ n (netInv_init P0 preset hp) h
+    (hs : SaneRun E (NSt.init P0 preset) ops) (h : nrun E false (NSt.init P0 preset) ops = .ok n) : NetInv E n :=
+  netInv_run ops _ n (netInv_init P0 preset hp) hs h
 
 /-- … **the registry bounds, restricted to the present lanelets**: a lanelet that is not in the network lists nothing; whatever a
     present lanelet lists is an obstacle OF THE SCENARIO whose recorded shape or centre set (at that time step) holds the
     lanelet; and every recorded pair is a true pair of the lookup on the universe of lanelets, inside the horizon.
     (The other inclusion cannot hold here: a lanelet that arrives after the assignment is recorded by nobody's registry.) -/
 theorem C07c_registry_bounds {E : Env} (P0 : List Id) (preset : Id → Fwd) (hp : PresetSound E preset) (ops : List NOp)
-    (n : NSt) (h : nrun E false (NSt.init P0 preset) ops = .ok n) :
+    (n : NSt) (hs : SaneRun E (NSt.init P0 preset) ops) (h : nrun E false (NSt.init P0 preset) ops = .ok n) :
     (∀ l, l ∉ n.present → (∀ x, x ∉ n.st.sreg l) ∧ ∀ t x, ¬ memD n.st.dreg l t x) ∧
     (∀ l o, o ∈ n.st.sreg l → o ∈ n.st.statics ∧ (RecShapeS (n.st.fwd o) l ∨ RecCenS (n.st.fwd o) l)) ∧
     (∀ l t o, memD n.st.dreg l t o → o ∈ n.st.dynamics ∧
       (RecShapeD E (n.st.fwd o) o t l ∨ RecCenD E (n.st.fwd o) o t l)) ∧
     (∀ o t l, (RecShapeD E (n.st.fwd o) o t l → l ∈ E.shp o t ∧ InHorizon E o t) ∧
               (RecCenD E (n.st.fwd o) o t l → l ∈ E.cen o t ∧ InHorizon E o t)) := by
-  have hi := C07c_inv_run P0 preset hp ops n h
+  have hi := C07c_inv_run P0 preset hp ops n hs h
   refine ⟨fun l hl => ⟨fun x hx => hl (hi.absentS l x hx), fun t x hx => hl (hi.absentD l t x hx)⟩,
     hi.sub.subS, hi.sub.subD, fun o t l => ⟨fun hr => ?_, fun hr => ?_⟩⟩
   · obtain ⟨a, _, c⟩ := (hi.sound o).ofShapeD hr; exact ⟨a, c⟩
@@ -83,12 +86,12 @@ theorem C07c_registry_bounds {E : Env} (P0 : List Id) (preset : Id → Fwd) (hp 
 /-- **remove_clears with a changing network**: after any such history `remove_obstacle(o)` succeeds and leaves `o` in neither
     obstacle dict and on NO lanelet (present or not), statically or at any time step -/
 theorem C07c_remove_clears {E : Env} (P0 : List Id) (preset : Id → Fwd) (hp : PresetSound E preset) (ops : List NOp)
-    (n : NSt) (h : nrun E false (NSt.init P0 preset) ops = .ok n) (o : Id) :
+    (n : NSt) (hs : SaneRun E (NSt.init P0 preset) ops) (h : nrun E false (NSt.init P0 preset) ops = .ok n) (o : Id) :
     ∃ n', nstep E false n (.op (.remove o)) = .ok n' ∧ n'.present = n.present ∧
       o ∉ n'.st.statics ∧ o ∉ n'.st.dynamics ∧ (∀ l, o ∉ n'.st.sreg l) ∧ (∀ l t, ¬ memD n'.st.dreg l t o) := by
-  have hi := C07c_inv_run P0 preset hp ops n h
+  have hi := C07c_inv_run P0 preset hp ops n hs h
   obtain ⟨n', hn'⟩ := C07c_remove_total E n o
-  have hi' : NetInv E n' := netInv_step hi hn'
+  have hi' : NetInv E n' := netInv_step (op := .op (.remove o)) hi trivial hn'
   -- the obstacle dicts after the call
   have hlists : n'.present = n.present ∧ o ∉ n'.st.statics ∧ o ∉ n'.st.dynamics := by
     simp only [nstep, Bool.false_eq_true, if_false] at hn'
@@ -117,13 +120,13 @@ theorem C07c_remove_clears {E : Env} (P0 : List Id) (preset : Id → Fwd) (hp : 
     absorb registrations left by `use_center_only=True`. -/
 theorem C07c_reassign_exact {E : Env} (hcs : ∀ o t l, l ∈ E.cen o t → l ∈ E.shp o t)
     (P0 : List Id) (preset : Id → Fwd) (hp : PresetSound E preset) (ops : List NOp) (n n' : NSt)
-    (h : nrun E false (NSt.init P0 preset) ops = .ok n)
+    (hs : SaneRun E (NSt.init P0 preset) ops) (h : nrun E false (NSt.init P0 preset) ops = .ok n)
     (ha : nstep E false n (.op (.assign none none false)) = .ok n') :
     n'.present = n.present ∧
     (∀ l t o, memD n'.st.dreg l t o ↔
       (l ∈ n.present ∧ o ∈ n'.st.dynamics ∧ E.kind o ≠ Kind.dynSet ∧ InHorizon E o t ∧ l ∈ E.shp o t)) ∧
     (∀ l o, o ∈ n'.st.sreg l ↔ (l ∈ n.present ∧ o ∈ n'.st.statics ∧ l ∈ E.shp o (E.t0 o))) := by
-  have hi := C07c_inv_run P0 preset hp ops n h
+  have hi := C07c_inv_run P0 preset hp ops n hs h
   simp only [nstep] at ha
   cases hx : step (E.on n.present) n.st (.assign none none false) with
   | error e => rw [hx] at ha; cases ha
